@@ -96,16 +96,16 @@ def loops_extra(tier):
             for f in sorted(glob.glob(os.path.join(VERIF, "corpus", "loops", "*.sc")))]
 
 
-def mc_heap(pid, tier, invariant):
+def mc_heap(pid, tier, invariant, emit_histories=False):
     """design-level model: exhaustive BFS to a level bound plus random deep histories (TLC simulation) of spec/AxCutHeap.tla"""
     work = os.path.join(WORK, pid, "mc_heap")
     os.makedirs(work, exist_ok=True)
-    out = {"states": 0, "transitions": 0, "viols": [], "notes": []}
+    out = {"states": 0, "transitions": 0, "viols": [], "notes": [], "histories": []}
     runs = [("bfs", dict(MaxVars=3, MaxBlocks=8, Arities="{0,1,2,4,5}", MaxLevel=T(tier, 4, 6)), None),
             ("sim", dict(MaxVars=4, MaxBlocks=14, Arities="{0,1,2,3,4,5,7}", MaxLevel=60), "num=%d" % T(tier, 3, 200))]
     for mode, consts, sim in runs:
         cfg = "SPECIFICATION Spec\nCONSTANTS\n" + "".join("  %s = %s\n" % kv for kv in consts.items()) + "  FootK = 1\n" + \
-              "INVARIANT %s\nCONSTRAINT Bounded\nVIEW StateView\nCHECK_DEADLOCK FALSE\n" % invariant
+              "INVARIANT %s\n%sCONSTRAINT Bounded\nVIEW StateView\nCHECK_DEADLOCK FALSE\n" % (invariant, "INVARIANT EmitHist\n" if (emit_histories and not sim) else "")
         cname = "MC_Heap_%s_%s.cfg" % (pid, mode)
         open(os.path.join(SPEC, cname), "w").write(cfg)
         extra = ["-depth", "45"] if sim else None
@@ -131,6 +131,9 @@ def mc_heap(pid, tier, invariant):
         if r["states"]:
             out["states"] += r["distinct"] or 0
             out["transitions"] += r["states"] or 0
+        if emit_histories and not sim:
+            hs = sorted({l.strip() for l in txt.splitlines() if l.startswith('"HIST ')})
+            out["histories"] = [json.loads(json.loads(h)[5:]) for h in hs]
         m = re.search(r"(\d+) states checked, (\d+) traces generated", txt)
         if sim and m:
             out["notes"].append("simulation: %s states checked on %s random histories" % (m.group(1), m.group(2)))
@@ -167,14 +170,22 @@ def check_C10(tier):
 
 def check_C09(tier):
     plan = T(tier, [("objects", 90), ("base", 70), ("spill", 30), ("noprint", 40)], [("objects", 2000), ("base", 1500), ("spill", 600), ("noprint", 800)])
-    mc = mc_heap("C09", tier, "HeapConsistent")
+    mc = mc_heap("C09", tier, "HeapConsistent", emit_histories=True)
+    hs = mc["histories"]
+    r = rng_for("C09h")
+    if len(hs) > T(tier, 450, 40000):
+        longest = [h for h in hs if len(h) >= max(len(x) for x in hs)]
+        hs = r.sample(longest, min(len(longest), T(tier, 350, 30000))) + r.sample(hs, T(tier, 100, 10000))
+    directed = [("hist%d" % i, GL.history_program(h), [[]]) for i, h in enumerate(hs)]
     return lockstep.lockstep_check(
-        "C09", tier, ["x86", "a64", "rv64"], plan, extra_viols=mc["viols"],
+        "C09", tier, ["x86", "a64", "rv64"], plan, extra_viols=mc["viols"], directed=directed,
         extra_cov={"design_model": {"module": "spec/AxCutHeap.tla", "invariant": "HeapConsistent (HeapInv in every reachable state)", "distinct_states": mc["states"],
                                     "states_generated": mc["transitions"], "notes": mc["notes"]}}, maxsteps=T(tier, 20000, 200000), nblocks=160, timeout=T(tier, 900, 7000),
         extra=loops_extra("quick"), level="model_checking",
         extra_rule="HeapInv (spec/HeapInv.tla) evaluated on the concrete heap words and registers at every statement marker; "
-                   "MemInBounds at every instruction")
+                   "MemInBounds at every instruction; plus replay of the allocator design model's mutator histories (spec/AxCutHeap.tla, "
+                   "every let/dup/drop/switch sequence up to the level bound, sampled in the quick tier) as linear programs through the "
+                   "real backends")
 
 
 def check_C11(tier):
@@ -220,7 +231,9 @@ def check_C02(tier):
 def check_C03(tier):
     k = T(tier, 1, 12)
     plan = [dict(n=200 * k, mode="any", pressure=False, budget=(8, 30), tag="any"),
-            dict(n=80 * k, mode="any", pressure=True, twin=True, budget=(8, 24), tag="anytw")]
+            dict(n=80 * k, mode="any", pressure=True, twin=True, budget=(8, 24), tag="anytw"),
+            # heavy shadowing: the inputs whose Core translation is well-typed (hypothesis) exercise uniquification
+            dict(n=200 * k, mode="any", pressure=True, budget=(8, 26), tag="shadow")]
     return stages.stage_check(
         "C03", tier, [("core", "coreuniq"), ("core", "corefs")], ["coreuniq", "corefs"], plan, own_hyp="core",
         maxsteps=T(tier, 6000, 20000),
